@@ -32,7 +32,7 @@ CLAIMED = {
         design="DESIGN.md §4 C10",
     ),
     "C14": dict(
-        text="PARTIAL (clauses b and c only). Exactly-once: the hidden state is the position of the document PRNG; randint(0,999999) beacons / random() are placed at 14 attribute sites of the element pipeline, inside loops (fixed or random count), ifs, groups, reuse attributes and specs-template bodies, with API seeds and <config seed> reseeding; every printed value must equal a reference Pcg32 stream (same rand_pcg crate) stepped once per occurrence per rendered element. Fail-on-malformed: 8 malformed-expression kinds x 16 sites x 5 neighbourhoods (alone / beside / inside / after elements that need a retry) must fail the transform - the retry protocol must not turn an error into success. Clause (a), arithmetic semantics of a pure evaluator, is NOT decided by this technique.",
+        text="PARTIAL (clauses b and c only). Exactly-once: the hidden state is the position of the document PRNG; randint(0,999999) beacons / random() are placed at 14 attribute sites of the element pipeline, inside loops (fixed or random count), ifs, groups, reuse attributes and specs-template bodies, with API seeds and <config seed> reseeding; every printed value must equal what svgdx itself prints for the same ordered draws in a flat calibration document (one plain element per occurrence per rendering, same reseeds) - no PRNG algorithm is assumed; on that stream: same values under any non-seed configuration, randint(n,n) advances, <config seed=S> restarts as a document with seed S. Fail-on-malformed: 8 malformed-expression kinds x 16 sites x 5 neighbourhoods (alone / beside / inside / after elements that need a retry) must fail the transform - the retry protocol must not turn an error into success. Clause (a), arithmetic semantics of a pure evaluator, is NOT decided by this technique.",
         note="At most one random occurrence per element (attribute evaluation order inside one element is not constrained). <specs> content is not a rendered element. The hook's draw counter is diagnostic only (rolled-back draws are legitimate).",
         technique=TECH + ": PRNG stream position as hidden state, reference-stream conformance oracle; malformed expressions as faults placed around the retry protocol (partial: arithmetic semantics not covered)",
         design="DESIGN.md §4 C14",
